@@ -144,7 +144,7 @@ def glue(idx: int, s1: int, s2: int, s3: int, fb: bool) -> bool:
             alpha[k] = env.STATES[xs.pick(sel[k], 0, 3)]
     if "[901]" not in text and fb:
         return True
-    env.setup(rc=alpha, fc={"901": fb}, hints={"501": "Hinweis 501"})
+    env.setup(rc=dict(alpha, **{"9": env.STATES[1]}), fc={"901": fb}, hints={"501": "Hinweis 501"})
     desc = dict(idx=idx, s1=s1, s2=s2, s3=s3, fb=fb)
     # ---- split
     try:
@@ -166,6 +166,13 @@ def glue(idx: int, s1: int, s2: int, s3: int, fb: bool) -> bool:
     if not split_ok:
         xs.reached()
         return xs.fail(f"'{text}' is split into {got_parts}, written parts are {want_parts}", **desc)
+    # ---- history: an earlier evaluation in which a trailing bare mark was the selected part of a multi-part expression
+    if len(parts) == 1 and parts[0][1] is None:
+        try:
+            detloop.run(evaluate_ahb_expression_tree(detloop.run(parse_expression_including_unresolved_subexpressions("Muss [9] Kann"))))
+            detloop.run(evaluate_ahb_expression_tree(detloop.run(parse_expression_including_unresolved_subexpressions("X [9] U [9]"))))
+        except Exception:  # pylint:disable=broad-except
+            pass
     # ---- evaluation of the whole expression
     try:
         rtree = detloop.run(parse_expression_including_unresolved_subexpressions(text))
@@ -193,6 +200,8 @@ def glue(idx: int, s1: int, s2: int, s3: int, fb: bool) -> bool:
     got = (getattr(ind, "name", str(ind)), rcr.requirement_constraints_fulfilled, rcr.hints, rcr.format_constraints_expression, fcr.format_constraints_fulfilled, fcr.error_message)
     if not isinstance(ind, (ModalMark, PrefixOperator)):
         return xs.fail(f"'{text}': reported indicator {ind!r} is not a normalised indicator", **desc)
+    if len(parts) == 1 and parts[0][1] is None and rcr.requirement_is_conditional is not False:
+        return xs.fail(f"bare indicator '{text}' (evaluated after 'Muss [9] Kann' in the same process) must count as fulfilled and unconditional; requirement_is_conditional={rcr.requirement_is_conditional}", **desc)
     if got != want:
         return xs.fail(f"'{text}' under {states}: result (indicator, fulfilled, hints, format expression, format fulfilled, format message) = {got}; the deciding part on its own gives {want}", **desc)
     return True
